@@ -228,6 +228,12 @@ pub fn print_struct(prog: &Program, n: usize, out: &mut String) {
         (Tr::None, _) => {}
     }
     let body = to_val_body(&s.fields, &|f| format!("&self.{}", f.rust));
+    let body = if s.magic.iter().any(|m| m == "attrs") {
+        // the forwarded attributes are part of the observable value
+        body.replacen("vec![", "vec![(String::from(\"attrs\"), vrt::ToVal::to_val(&self.attrs)), ", 1)
+    } else {
+        body
+    };
     out.push_str(&format!("impl vrt::ToVal for R{n} {{ fn to_val(&self) -> vmodel::ir::Val {{ {body} }} }}\n"));
 }
 
